@@ -80,6 +80,12 @@ func VerifH19ClearBit() {
 	if !any && verifChoice("untimed", 2) == 1 {
 		_, _ = std.fragments[0].setBit(row, col) // set without a timestamp
 	}
+	// the standard view may lack the bit although time views hold it: a
+	// roaring import that names only time views, or an import with clear
+	// (which touches the standard view only), leaves that state
+	if any && verifChoice("standardlacks", 2) == 1 {
+		_, _ = std.fragments[0].clearBit(row, col)
+	}
 	_, err := fld.ClearBit(row, col)
 	verifReach("ClearBit returned")
 	verifAssert(err == nil, "ClearBit: no error")
